@@ -33,9 +33,11 @@ VALUE_KINDS = ["u64", "str", "sg", "fmt", "optnone", "optsome"]
 LEAF_KINDS = VALUE_KINDS + [k + "@" for k in VALUE_KINDS] + ["ignore", "ts"]
 
 BUDGET = {
-    "quick": {"small_total": 3, "small_bind": 1500, "sim_walks": 1200, "chain_walks": 250, "bins": 12, "neg": True,
+    "quick": {"small_total": 3, "small_bind": 900, "sim_walks": 600, "sim_bind": 900, "chain_walks": 120, "chain_bind": 150,
+              "bins": 12, "neg": True,
               "instr_depth": 7, "flex_depth": 5},
-    "thorough": {"small_total": 4, "small_bind": 20000, "sim_walks": 12000, "chain_walks": 2000, "bins": 32, "neg": True,
+    "thorough": {"small_total": 4, "small_bind": 20000, "sim_walks": 12000, "sim_bind": 20000, "chain_walks": 2000,
+                 "chain_bind": 3000, "bins": 32, "neg": True,
                  "instr_depth": 9, "flex_depth": 7},
 }
 
@@ -155,10 +157,11 @@ def ed_families(chk, tier):
              "ScriptRot": rng.randrange(14), "ScriptRev": "TRUE" if rng.random() < 0.5 else "FALSE"}
     fams.append(("names", write_cfg(chk, "MC_ed_names.cfg", names, "names family (exhaustive)"), None, None))
     # small trees, exhaustive over a seeded cross-section of the attribute domains
-    kinds = {"ts", rng.choice(["sg", "sg@"])} | set(rng.sample(LEAF_KINDS, 4))
-    forms = {"s_named", rng.choice(["s_tuple", "e1_tuple", "e3_tuple"]), rng.choice(["e1_named", "e3_named"]),
-             rng.choice(FORMS)}
-    small = {"MaxDepth": 3, "MaxFields": 3, "MaxTotal": b["small_total"], "Styles": tla_set(rng.sample(RAS, 2)),
+    kinds = {"ts", rng.choice(["sg", "sg@"])} | set(rng.sample(LEAF_KINDS, 3 if tier == "quick" else 4))
+    forms = {"s_named", rng.choice(["s_tuple", "e1_tuple", "e3_tuple"]), rng.choice(["e1_named", "e3_named"])}
+    if tier != "quick":
+        forms.add(rng.choice(FORMS))
+    small = {"MaxDepth": 3, "MaxFields": 3, "MaxTotal": b["small_total"], "Styles": tla_set(rng.sample(RAS, 1)),
              "VStyles": tla_set(["inherit", rng.choice(RAS[1:])]), "Kinds": tla_set(kinds), "Forms": tla_set(forms),
              "Edges": tla_set({"plain", rng.choice(EDGES[1:])}), "ScriptKinds": "{}", "ScriptRot": 0, "ScriptRev": "FALSE"}
     fams.append(("small", write_cfg(chk, "MC_ed_small.cfg", small, "small trees (exhaustive)"), None, None))
@@ -176,6 +179,16 @@ def ed_families(chk, tier):
     fams.append(("chain", write_cfg(chk, "MC_ed_chain.cfg", chain, "sample-group chains (-simulate)"), b["chain_walks"], 60))
     chk.extra["ed_bounds"] = {"names": names, "small": small, "sim": sim, "chain": chain}
     return fams
+
+
+def fast_replay_lines(out, tag="REPLAY"):
+    """PrintT(<<"REPLAY", ToJson(x)>>) lines -> python objects (a TLA+ string literal escapes like JSON does)"""
+    pre = '<<"%s", ' % tag
+    res = []
+    for l in out.splitlines():
+        if l.startswith(pre) and l.endswith(">>"):
+            res.append(json.loads(json.loads(l[len(pre):-2])))
+    return res
 
 
 def ed_tlc(chk, tier):
@@ -204,7 +217,7 @@ def ed_tlc(chk, tier):
         if r.errors or (not walks and not r.no_error):
             sys.stdout.write(r.out[-3000:])
             raise vlib.ToolError(f"EntryDeriveReplay/{fam} failed: {r.errors[:2]}")
-        lines = vlib.replay_lines(r)
+        lines = fast_replay_lines(r.out)
         r.out = ""
         if walks:
             # a walk is a behaviour, not a state
@@ -346,6 +359,11 @@ def ed_select(fams, tier, rng):
             if len(short) > b["small_bind"] // 2:
                 short = rng.sample(short, b["small_bind"] // 2)
             idx = short + rng.sample(rest, min(len(rest), b["small_bind"] - len(short)))
+        if fam in ("sim", "chain") and len(idx) > b[fam + "_bind"]:
+            # the largest trees first (they are what the exhaustive families cannot reach), then a seeded sample
+            idx.sort(key=lambda i: -len(lines[i]["toks"]))
+            top = idx[:b[fam + "_bind"] // 3]
+            idx = top + rng.sample(idx[len(top):], b[fam + "_bind"] - len(top))
         for i in idx:
             sel.append((fam, f"{fam}{i}", lines[i]))
     return sel
